@@ -294,6 +294,12 @@ pub fn check(tier: Tier) -> i32 {
     let c = acc.evals;
     rep.acc.merge(acc);
     rep.scope(&sp.name, c, done);
+    for (sz, d) in if tier == Tier::Quick { vec![(4usize, 1usize)] } else { vec![(4, 2), (5, 1)] } {
+        let (acc, done) = crate::props::sweep::sweep_gen(sz, d, &budget, |s, acc| eval_str(s, acc));
+        let c = acc.evals;
+        rep.acc.merge(acc);
+        rep.scope(&format!("gen({sz},{d})"), c, done);
+    }
     let all = constructed();
     let (acc, done) = par_blocks(all.len() as u64, &budget, |b, acc| eval_constructed(b as usize, &all, acc));
     let c2 = acc.evals;
